@@ -72,7 +72,7 @@ func runLifeCase(c LifeCase) *failure {
 		defer s.Close()
 		nodes = append(nodes, s)
 	}
-	t0 := time.Now()
+	watch := startWatch()
 	cl, err := nodes[c.Node].Connect(nextAddr())
 	if err != nil {
 		panic("C08 harness: Connect: " + err.Error())
@@ -82,7 +82,7 @@ func runLifeCase(c LifeCase) *failure {
 	}
 	wantNode := nodes[c.Node].NodeID
 	find := func(when string, since time.Duration) *failure {
-		if time.Since(t0) > ttl/3 { // the wall clock must stay far from the records' ExpiresAt
+		if watch.suspect(ttl / 3) { // both clocks must stay far from the records' ExpiresAt
 			vkit.Skipped(1)
 			return nil
 		}
